@@ -431,7 +431,7 @@ func (w *world) faultSave(op *Op, hs *raftpb.HardState, es []raftpb.Entry, sn *r
 	_ = os.RemoveAll(imgRoot)
 	var prev *crashfs.Event
 	hit := ""
-	slotsDone, hitJ := 0, 0
+	slotsDone, hitJ, clears, hitClears := 0, 0, 0, 0
 	rec.Start(w.dir, func(ev *crashfs.Event) {
 		cl := classify(ev, prev)
 		cp := *ev
@@ -442,9 +442,13 @@ func (w *world) faultSave(op *Op, hs *raftpb.HardState, es []raftpb.Entry, sn *r
 			failNext = true
 			hit = cl
 			hitJ = slotsDone
+			hitClears = clears
 		}
 		if cl == "slot" {
 			slotsDone++
+		}
+		if cl == "zerofill-zeros" {
+			clears++
 		}
 	}, nil)
 	err := w.ds.Save(hs, es, sn)
@@ -454,7 +458,9 @@ func (w *world) faultSave(op *Op, hs *raftpb.HardState, es []raftpb.Entry, sn *r
 		return err // the Save has fewer steps: an ordinary Save
 	}
 	w.c.Stats["fault:"+hit]++
-	if fk, rot := faultOf(hit); fk != "" {
+	// (a clearing done in several pieces that fails after the first piece leaves a partly cleared range: the model
+	// knows the all-or-nothing case only; the contract oracle below still applies)
+	if fk, rot := faultOf(hit); fk != "" && !(fk == "clear" && hitClears > 0) {
 		w.fault = &FaultObs{K: fk, J: hitJ, Rot: rot, Rep: err != nil}
 	}
 	im := image{dir: filepath.Join(imgRoot, "f"), seq: int(op.I), class: "fault-" + hit}
